@@ -231,100 +231,119 @@ def run(rep):
     T = {}
     t0 = time.time()
     # 1. laws of the Boundary specification
-    res = tlc.run(rep.pid, "C11", LAW_CFG, env={"TIER": rep.tier}, timeout=1500, tag="laws")
+    res = tlc.run(rep.pid, "C11", LAW_CFG, env={"TIER": rep.tier}, timeout=1500, tag="laws", heap="4g")
     rep.add_tlc("C11.Laws(Boundary)", res)
     if res.distinct < 2000:
         raise Machinery("law run covered only %d values" % res.distinct)
     T["laws"] = round(time.time() - t0, 1)
     t0 = time.time()
-    # 2. enumeration: boundary traces + all interleavings
-    traces = []
-    res = tlc.run(rep.pid, "C11", ENUMB_CFG, env={"TIER": rep.tier}, timeout=900, tag="enumB")
+    # 2. enumeration: boundary traces + all interleavings (kept as text until their chunk is replayed)
+    traces = []                  # compact JSON text of one event list each
+    res = tlc.run(rep.pid, "C11", ENUMB_CFG, env={"TIER": rep.tier}, timeout=900, tag="enumB", heap="3g")
     rep.add_tlc("C11.Enum(boundary traces)", res)
     seen = set()
     for r in res.records:
         if "t" in r:
-            k = json.dumps(r["t"], sort_keys=True)
+            k = json.dumps(r["t"], sort_keys=True, separators=(",", ":"))
             if k not in seen:
                 seen.add(k)
-                traces.append(r["t"])
+                traces.append(k)
     nb = len(traces)
     if nb < 300:
         raise Machinery("boundary enumeration produced only %d traces" % nb)
-    rep.spaces.append({"space": "boundary values x (set, get, eval, mutate returned, mutate passed), script results, "
+    rep.spaces.append({"space": "boundary values x (set, script view, get, eval, mutate returned, mutate passed), script results, "
                                 "call forms x argument vectors x return values (TLC-enumerated)", "cases": nb, "complete": True})
     plan = [("small", 5)] if rep.tier == "quick" else [("small", 6), ("full", 5)]
     for alpha, length in plan:
         res = tlc.run(rep.pid, "C11", ENUMI_CFG % length, env={"TIER": rep.tier, "ALPHABET": alpha}, timeout=1500,
-                      tag="enumI_%s_%d" % (alpha, length))
+                      tag="enumI_%s_%d" % (alpha, length), heap="4g")
         rep.add_tlc("C11.Enum(interleavings,%s,L=%d)" % (alpha, length), res)
-        vals, hs, seen = None, [], set()
+        vals, seen = None, set()
         for r in res.records:
             if "vals" in r:
                 vals = r["vals"]
-            elif "h" in r:
-                k = json.dumps(r["h"])
-                if k not in seen:
-                    seen.add(k)
-                    hs.append(r["h"])
-        if vals is None or len(hs) < 1000:
-            raise Machinery("interleaving enumeration produced %d histories" % len(hs))
-        for h in hs:
+        if vals is None:
+            raise Machinery("the specification did not print its value table")
+        n0 = len(traces)
+        for r in res.records:
+            if "h" not in r:
+                continue
+            k = json.dumps(r["h"], separators=(",", ":"))
+            if k in seen:
+                continue
+            seen.add(k)
             evs = []
-            for n, e in enumerate(h, start=1):
+            for n, e in enumerate(r["h"], start=1):
                 ev = {"op": e[0], "nm": e[1]}
                 if e[0] == "set":
                     ev["v"] = vals[n - 1]           # the specification's table: value written by event n
                 elif e[0] == "evalmut":
                     ev["x"], ev["how"] = n, e[2]
                 evs.append(ev)
-            traces.append(evs)
+            traces.append(json.dumps(evs, separators=(",", ":")))
+        del res
+        if len(traces) - n0 < 1000:
+            raise Machinery("interleaving enumeration produced %d histories" % (len(traces) - n0))
         rep.spaces.append({"space": "all interleavings of %s on two names, exactly %d events (TLC-enumerated; shorter "
                                     "ones are prefixes)" % ("set/get/eval(name)/eval(mutate)" if alpha == "small" else
                                                             "set/get/eval(name)/eval(mutate)/mutate-returned/mutate-passed", length),
-                           "cases": len(hs), "complete": True})
+                           "cases": len(traces) - n0, "complete": True})
     ne = len(traces)
     rng = random.Random(rep.seed)
-    traces += random_traces(rng, 3000 if rep.tier == "quick" else 60000)
+    nrand = 3000 if rep.tier == "quick" else 60000
     rep.spaces.append({"space": "seeded random traces (values to depth 4, script results, exposed callables, mixed histories), seed %d" % rep.seed,
-                       "cases": len(traces) - ne, "complete": False})
+                       "cases": nrand, "complete": False})
     T["enumerate"] = round(time.time() - t0, 1)
-    t0 = time.time()
-    cases = [{"id": i, "ev": evs} for i, evs in enumerate(traces)]
-    # 3. replay
-    results = engine.run_cases(rep.pid, cases, driver="checks.c11_driver:run_trace", timeout=3000)
-    if len(results) != len(cases):
-        raise Machinery("replay returned %d traces for %d cases" % (len(results), len(cases)))
-    for r in results:
-        r.pop("id", None)
-    T["replay"] = round(time.time() - t0, 1)
-    t0 = time.time()
-    # 4. judge
-    verdicts, st, tr, _ = tlc.judge(rep.pid, "C11", results, JUDGE_CFG, timeout=3000)
-    verdicts = [v for v in verdicts if "tid" in v]
-    rep.add_judge(len(results), st, tr)
-    rep.evaluations = sum(len(r["ev"]) for r in results)
-    T["judge"] = round(time.time() - t0, 1)
-    rep.notes["stage_wall_s"] = T
-    got = {v["tid"]: v for v in verdicts}
-    if len(got) != len(results):
-        raise Machinery("judge returned %d verdicts for %d traces" % (len(got), len(results)))
-    byid = {r["tid"]: r for r in results}
-    for tid in sorted(got):
-        v, r = got[tid], byid[tid]
-        if v["v"] == "pass":
-            if len(rep.samples) < 5 and tid % 1777 == 0:
-                rep.sample({"trace": show_trace(r["ev"]), "verdict": "pass"})
-            continue
-        if v["v"] == "unsupported":
-            raise Machinery("the judge cannot interpret trace %d: %s" % (tid, show_trace(r["ev"])))
-        w = v["why"]
-        ev = r["ev"][w["at"] - 1]
-        detail = {"clause": w["clause"], "at": w["at"], "event": show_event(ev).encode("ascii", "backslashreplace").decode(), "outcome": ev.get("o"), "error": ev.get("err"),
-                  "expected": show_pw(w["exp"]) if w["clause"] in ("get", "evalname", "evalexpr", "jsview") else None,
-                  "actual": show_pw(ev["out"]) if "out" in ev else {"calls": ev.get("calls"), "got": ev.get("got")},
-                  "trace": r["ev"]}
-        rep.mismatch("t%d: %s @%d %s" % (tid, show_trace(r["ev"]), w["at"], w["clause"]), detail, dev=v.get("dev", ""))
+    T["replay"] = T["judge"] = 0.0
+    # 3. replay + 4. judge, in chunks
+    CH = 40000
+    total = ne + nrand
+    nev = 0
+    for b in range(0, total, CH):
+        t0 = time.time()
+        part = []
+        for i in range(b, min(b + CH, total)):
+            part.append(json.loads(traces[i]) if i < ne else None)
+        nr = sum(1 for x in part if x is None)
+        if nr:
+            rnd = random_traces(rng, nr)
+            part = [x for x in part if x is not None] + rnd
+        cases = [{"id": b + i, "ev": evs} for i, evs in enumerate(part)]
+        results = engine.run_cases(rep.pid, cases, driver="checks.c11_driver:run_trace", timeout=3000, tag="eng_%d" % (b // CH))
+        if len(results) != len(cases):
+            raise Machinery("replay returned %d traces for %d cases" % (len(results), len(cases)))
+        for r in results:
+            r.pop("id", None)
+        T["replay"] += time.time() - t0
+        t0 = time.time()
+        verdicts, st, tr, _ = tlc.judge(rep.pid, "C11", results, JUDGE_CFG, timeout=3000, tag="judge_%d" % (b // CH))
+        verdicts = [v for v in verdicts if "tid" in v]
+        rep.add_judge(len(results), st, tr)
+        nev += sum(len(r["ev"]) for r in results)
+        T["judge"] += time.time() - t0
+        got = {v["tid"]: v for v in verdicts}
+        if len(got) != len(results):
+            raise Machinery("judge returned %d verdicts for %d traces" % (len(got), len(results)))
+        byid = {r["tid"]: r for r in results}
+        for tid in sorted(got):
+            v, r = got[tid], byid[tid]
+            if v["v"] == "pass":
+                if len(rep.samples) < 5 and tid % 1777 == 0:
+                    rep.sample({"trace": show_trace(r["ev"]), "verdict": "pass"})
+                continue
+            if v["v"] == "unsupported":
+                raise Machinery("the judge cannot interpret trace %d: %s" % (tid, show_trace(r["ev"])))
+            w = v["why"]
+            ev = r["ev"][w["at"] - 1]
+            detail = {"clause": w["clause"], "at": w["at"], "event": show_event(ev).encode("ascii", "backslashreplace").decode(),
+                      "outcome": ev.get("o"), "error": ev.get("err"),
+                      "expected": show_pw(w["exp"]) if w["clause"] in ("get", "evalname", "evalexpr", "jsview") else None,
+                      "actual": show_pw(ev["out"]) if "out" in ev else {"calls": ev.get("calls"), "got": ev.get("got")},
+                      "trace": r["ev"]}
+            rep.mismatch("t%d: %s @%d %s" % (tid, show_trace(r["ev"]), w["at"], w["clause"]), detail, dev=v.get("dev", ""))
+        del results, verdicts, got, byid, cases, part
+    rep.evaluations = nev
+    rep.notes["stage_wall_s"] = {k: round(v, 1) for k, v in T.items()}
     rep.exhaustive = True
     rep.notes["events_judged"] = rep.evaluations
     rep.assumptions += ["text is compared as UTF-16 code units (a non-BMP character and its surrogate pair are the same text)",
